@@ -234,6 +234,11 @@ func c02One(r *fw.Rec, o dmOpts, class string) bool {
 	// (3) image path (pure barcode) at a random scale, sampled
 	if r.Rng.Intn(4) == 0 {
 		k := 1 + r.Rng.Intn(4)
+		if bm.GetWidth() <= 26 && r.Rng.Intn(6) == 0 {
+			// poster sizes: one module spans two or more 32-bit words of the image rows
+			k = []int{33, 34, 47, 64, 65, 66, 90}[r.Rng.Intn(7)]
+			r.Tally("image_path_modules_of_33_pixels_or_more")
+		}
 		w, h := bm.GetWidth()*k+r.Rng.Intn(9), bm.GetHeight()*k+r.Rng.Intn(9)
 		switch r.Rng.Intn(6) {
 		case 0: // narrower than the symbol, but tall enough: the bare symbol must come back, readable
@@ -293,7 +298,7 @@ func dmRandomHints(rng *fw.Rand) (shape int, min, max *[2]int) {
 var dmExhAlphabet = []rune{'1', '7', 'A', 'Z', 'a', 'z', ' ', '*', '>', '\r', '!', '^', 0x05, 0xE9}
 
 func c02(c *fw.Ctx) {
-	c.Rule("run-structured random Latin-1 strings over seven character classes (digits, C40-native, Text-native, X12 separators, EDIFACT punctuation, controls, 0x80-0xFF; run lengths 1-7), all strings of length <= 3 (thorough: <= 5) over a 14-symbol alphabet with one representative of every class, exact-fill families (Base-256 runs of every length, C40/Text/X12 triplets with 1-2 left-over characters), macro 05/06 envelopes and near misses (other format numbers, header or trailer alone, a damaged separator, text behind the trailer), digit strings reaching each of the 30 sizes, shape and min/max hints; per case: dispatch-step bound (hook), writer result xor error, refusal rules from independent capacity bounds, codewords decoded by the independent ISO 16022 decoder and by the library parser, matrix path, sampled image path; distinct = distinct (text, hints)")
+	c.Rule("run-structured random Latin-1 strings over seven character classes (digits, C40-native, Text-native, X12 separators, EDIFACT punctuation, controls, 0x80-0xFF; run lengths 1-7), all strings of length <= 3 (thorough: <= 5) over a 14-symbol alphabet with one representative of every class, exact-fill families (Base-256 runs of every length, C40/Text/X12 triplets with 1-2 left-over characters), macro 05/06 envelopes and near misses (other format numbers, header or trailer alone, a damaged separator, text behind the trailer), digit strings reaching each of the 30 sizes, shape and min/max hints; per case: dispatch-step bound (hook), writer result xor error, refusal rules from independent capacity bounds, codewords decoded by the independent ISO 16022 decoder and by the library parser, matrix path, sampled image path (1..4 pixels per module, small symbols also at 33..90); distinct = distinct (text, hints)")
 	c.Assume("must-succeed when the plain-ASCII cost is at most half the largest admissible capacity; must-fail when a per-character lower bound exceeds it or a rune > U+00FF occurs; between the bounds either outcome is accepted (DESIGN C02)")
 	// exhaustive short strings
 	maxLen := c.Pick(3, 5)
@@ -473,6 +478,7 @@ func c02(c *fw.Ctx) {
 	})
 	c.Floor("roundtrip_ok", 30000)
 	c.Floor("image_path_ok", 3000)
+	c.Floor("image_path_modules_of_33_pixels_or_more", 300)
 	c.Floor("refused_must_fail", 5)
 	for _, m := range "ACTXEB" {
 		c.Floor("mode_entered_"+string(m), 200)
